@@ -2,6 +2,7 @@ package engines
 
 import (
 	"errors"
+	"io"
 	"syscall"
 
 	libaudit "github.com/elastic/go-libaudit/v2"
@@ -51,6 +52,8 @@ type kernelPort struct {
 	closeErrno    []int // errno reported by the n-th close(2) (the descriptor is released regardless)
 	closeCalls    int
 	closeFailed   int
+	intrNext      int // so many of the next reads fail with EINTR (transport scenario)
+	intrFired     int
 }
 
 func (p *kernelPort) doSend(wire []byte, dstPid uint32) int {
@@ -83,6 +86,14 @@ func (p *kernelPort) doRecv() (*kern.Datagram, int) {
 			p.hardFired++
 			return nil, 105 // ENOBUFS: the socket's receive queue overran; not a transient failure
 		}
+	}
+	if p.intrNext > 0 {
+		// the transport scenario's own "interrupted by a signal" reads
+		p.intrNext--
+		p.intrFired++
+		p.recvCalls++
+		p.injEintr++
+		return nil, kern.EINTR
 	}
 	p.recvCalls++
 	if !p.armed {
@@ -206,6 +217,19 @@ type gateBox struct{ g gate }
 func (b *gateBox) set(g gate) { b.g = g }
 
 const poison = 0xEE
+
+// nopWriter is the "dump every response" writer an application may hand to
+// the NetlinkClient (it keeps no state: tasks may write to it at once).
+type nopWriter struct{}
+
+func (nopWriter) Write(b []byte) (int, error) { return len(b), nil }
+
+func respWriter(p *KPlan) io.Writer {
+	if p.Resp {
+		return nopWriter{}
+	}
+	return nil
+}
 
 // stubNetlink implements libaudit.NetlinkSendReceiver directly on top of the
 // kernel: it frames requests itself (per the UAPI layout) and reuses one
